@@ -22,7 +22,7 @@ func init() {
 			}
 			return 200000
 		},
-		Rule: "monitor at the Persist boundary: every Store(name, bytes) issued by hostile histories (as C01; each case also rebuilds its final contents by a second, different route - permuted inserts / superset-then-delete / empty-and-rebuild, other cache mode, after reload - so the same logical nodes are produced twice) is checked: name = unpadded base64url(BLAKE2b-256(bytes)) with an independent RFC 7693 implementation; one name never with two byte strings; two Stores whose decoded (format, entries, child names) agree must carry identical bytes (tables are process-wide across cases); a root name never stands for two different contents; non-trivial = distinct stored node bytes with >= 1 key and >= 1 child",
+		Rule:        "monitor at the Persist boundary: every Store(name, bytes) issued by hostile histories (as C01; each case also rebuilds its final contents by a second, different route - permuted inserts / superset-then-delete / empty-and-rebuild, other cache mode, after reload - so the same logical nodes are produced twice) is checked: name = unpadded base64url(BLAKE2b-256(bytes)) with an independent RFC 7693 implementation; one name never with two byte strings; two Stores whose decoded (format, entries, child names) agree must carry identical bytes (tables are process-wide across cases); a root name never stands for two different contents; non-trivial = distinct stored node bytes with >= 1 key and >= 1 child",
 		Assumptions: []string{"nodes are decoded with the independent decoder; a Store whose bytes it cannot decode is counted (undecodable) and only the hash/name clauses are applied to it"},
 		MinObs:      map[string]int64{"store_events": 20000, "logical_nodes_seen_twice": 1000, "roots_recorded": 2000},
 		Run:         runC08,
